@@ -78,6 +78,7 @@ pub fn term(t: &T, top: bool) -> String {
             match tag {
                 Tag::Tuple => format!("({})", args.join(", ")),
                 Tag::Pair | Tag::Pair2 | Tag::Box1 | Tag::Rec => format!("{}({})", tag.name(), args.join(", ")),
+                Tag::Named => format!("Named {{ a: {}, b: {} }}", args[0], args[1]),
                 other => panic!("{} has no writable constructor syntax", other.name()),
             }
         }
@@ -274,6 +275,9 @@ pub fn c13_cases(quick: bool) -> Vec<SCase> {
         T::Cmp(Tag::Pair, vec![T::Cmp(Tag::Box1, vec![x.clone()]), y.clone()]),
         // a pattern name equal to an outer variable's name (q): local to the arm
         T::list(vec![q(), T::I(2)]),
+        // named-field patterns with a field written `[]` (it matches the empty list only)
+        T::Cmp(Tag::Named, vec![x.clone(), T::Nil]),
+        T::Cmp(Tag::Pair, vec![T::Cmp(Tag::Named, vec![T::Nil, x.clone()]), y.clone()]),
     ];
     let subjects: Vec<(Vec<G>, T)> = vec![
         (vec![], q()),
@@ -284,6 +288,7 @@ pub fn c13_cases(quick: bool) -> Vec<SCase> {
         (vec![G::Eq(q(), T::Cmp(Tag::Box1, vec![T::list(vec![T::I(3)])]))], q()),
         (vec![G::Eq(q(), T::Cmp(Tag::Pair, vec![T::Cmp(Tag::Box1, vec![T::I(4)]), T::I(5)]))], q()),
         (vec![G::Eq(q(), T::I(1))], q()),
+        (vec![G::Eq(q(), T::Cmp(Tag::Pair, vec![T::Cmp(Tag::Named, vec![T::I(7), T::I(1)]), T::I(2)]))], q()),
         (vec![], T::list(vec![q(), r()])),
         (vec![G::Eq(r(), T::I(2))], T::list(vec![q(), r()])),
     ];
@@ -495,6 +500,9 @@ pub fn c14_cases(quick: bool) -> Vec<SCase> {
         T::Cmp(Tag::Tuple, vec![r(), T::I(2)]),
         T::Cmp(Tag::Box1, vec![T::list(vec![r(), T::I(1)])]),
         T::Cmp(Tag::Pair, vec![T::Cmp(Tag::Box1, vec![T::I(1)]), T::Nil]),
+        // a named-field compound with a field written `[]`, nested in another constructor
+        T::Cmp(Tag::Pair, vec![T::Cmp(Tag::Named, vec![T::I(1), T::Nil]), T::I(2)]),
+        T::Cmp(Tag::Box1, vec![T::Cmp(Tag::Named, vec![T::Nil, r()])]),
     ]);
     let mut out = vec![];
     let mut count = 0usize;
